@@ -350,3 +350,46 @@ def fixed_schema(fmt, glen, name_len=5):
     r = R()
     f.layout(r)
     return f, r
+
+
+def growby_schema(fmt, nd):
+    """seed with nd dimensions (nd = 64, 128: multiples of PNC_ARRAY_GROWBY, so dims.value[] has no
+    spare NULL slot after the last dimension) and variables that use the LAST valid dimid"""
+    class R:
+        def __init__(self): self.s = 777 + nd
+        def next(self):
+            self.s = (self.s * 6364136223846793005 + 1442695040888963407) & 0xFFFFFFFFFFFFFFFF
+            return self.s
+    f = File(fmt)
+    f.dims = [Dim(b't', 0)] + [Dim(b'd%d' % i, 1 + i % 3) for i in range(1, nd)]
+    f.gatts = [Att(b'g', 2, 2, b'hi')]
+    f.vars = [Var(b'last', [nd - 1], [], 1),
+              Var(b'rl', [0, nd - 1], [Att(b'u', 4, 1, b'\x00\x00\x00\x07')], 3),
+              Var(b'two', [nd - 2, nd - 1], [], 4)]
+    f.hdr_gap = 4; f.numrecs = 1
+    r = R()
+    f.layout(r)
+    return f, r
+
+
+def selfref_values(f):
+    """every count stored in the header of f (ndims, nvars, ngatts, per-variable natts/ndims, dimids,
+    name lengths, nelems, dimension lengths, numrecs) and each of them +-1"""
+    vals = {len(f.dims), len(f.vars), len(f.gatts), f.numrecs}
+    for d in f.dims:
+        vals |= {d.size, len(d.name)}
+    for a in f.gatts:
+        vals |= {a.nelems, len(a.name)}
+    for v in f.vars:
+        vals |= {len(v.atts), len(v.dimids), len(v.name)} | set(v.dimids)
+        for a in v.atts:
+            vals |= {a.nelems, len(a.name)}
+    out = set()
+    for x in vals:
+        out |= {x - 1, x, x + 1}
+    return sorted(x for x in out if 0 <= x < (1 << 32))
+
+
+def var_list_offset(f):
+    """byte offset of the var_list in the header of f"""
+    return len(f.header()) - len(f.lst(TAG_VAR, list(enumerate(f.vars)), lambda p: f.var(p[0], p[1]), 'vars'))
